@@ -321,6 +321,7 @@ def rasteriser(ctx):
         ctx.inst('Q5', 'rasteriser#source', oks, 'source = %s; must be tile_slice(pixels, tile size, tile(tx, ty).id)[py * tile width + px] for the same tx, ty, px, py'
                  % d, c.span, key=b.name + '|Q5|source')
     render.opacity_and_mode(ctx, rule_o='Q5', rule_m=None)
+    render.no_extra_skips(ctx, rule='Q5')
     # helpers
     tb = ctx.anchor(TM + 'TilemapData::tile')
     if tb is not None:
